@@ -291,6 +291,29 @@ class Sim:
                     self.ev("get-peers")
                     c.push(self.wire.frame(self.wire.ms.GetPeersMessage()))
                     net.settle(node)
+            elif r < 0.985:
+                # a SECOND connect event for a key that is connected right now (the network manager's interface, used the way
+                # the local peer uses it when it dials; "duplicate keys" are part of what the property quantifies over)
+                keys = [k for k in self.nm.connected_peers if k[2] == "OUTGOING"] or list(self.nm.connected_peers)
+                if keys:
+                    import selectors as _sel
+                    k = rng.choice(sorted(keys, key=str))
+                    self.ev("duplicate-connect", [k[0], k[1], k[2]])
+                    self.a.inc("duplicate_connect_events")
+                    if not hasattr(self, "duplicate_connected"):
+                        self.duplicate_connected = set()
+                    self.duplicate_connected.add((k[0], k[1]))
+                    try:
+                        sock = net.lpmod.socket.socket()
+                        sock.setblocking(False)
+                        sock.connect_ex((k[0], k[1] if isinstance(k[1], int) else 2412))
+                        dp = self.rp.DisconnectedRemotePeer(k[0], k[1], k[2], net.clock.t, 0)
+                        peer = dp.as_connected(self.lp, sock)
+                        self.lp.selector.register(sock, _sel.EVENT_READ, data=peer)
+                        net._call(node, self.nm.handle_peer_connected, peer)
+                    except Exception as e:
+                        self.a.v("exception-from-connect-event", "a second connect event for %s raised %r" % (k, e), dict(self.w))
+                    net.settle(node)
             else:
                 if self.incoming:
                     c = rng.choice(self.incoming)
@@ -307,6 +330,11 @@ class Sim:
             by_addr.setdefault(ad, []).append(t)
         a.inc("outgoing_attempts", len(self.attempts))
         for ad, times in by_addr.items():
+            if ad in getattr(self, "duplicate_connected", ()):
+                # [domain] the harness injected a second connect event for this key with a failure history of its own
+                # choosing: the back-off model does not apply to it (the peer-book oracle does)
+                a.inc("addresses_excluded_from_back_off_after_duplicate_connect")
+                continue
             key = (ad[0], ad[1], "OUTGOING")
             discs = [(t, hello) for (t, k, hello) in self.disconnects if k == key]
             k = 0       # consecutive attempts that ended without a greeting
